@@ -107,6 +107,43 @@ fn bucket_names(acc: &mut Acc, tier: Tier) {
     par_items(acc, &names, |a, i, name| {
         let core = breaks_core_rules(name);
         let complete = valid_under_complete_rules(name);
+        // the same names on bucket-level requests (no key: `GET /name`, `GET /name/`, and `GET /` under the bucket's host)
+        for (style, trailing) in [("path", false), ("path", true), ("virtual-hosted", false)] {
+            let id = || format!("bucket-name/bucket-level/{style}{}/{name:?}", if trailing { "+slash" } else { "" });
+            if !a.selected(&id) {
+                continue;
+            }
+            let (cfg, host, path) = if style == "path" {
+                if name.is_empty() || name.contains([' ', '%', 'ü']) && !name.is_ascii() {
+                    continue;
+                }
+                (SvcCfg::default(), BASE.to_owned(), format!("/{}{}", uri_encode(name, true), if trailing { "/" } else { "" }))
+            } else {
+                if name.is_empty() || !name.is_ascii() || name.contains([' ', '%']) {
+                    continue;
+                }
+                (SvcCfg { host: HostMode::Single(BASE.to_owned()), ..Default::default() }, format!("{name}.{BASE}"), "/".to_owned())
+            };
+            a.eval();
+            let (svc, log) = cfg.build();
+            let out = call(&svc, &Req::new("GET", &path).header("host", &host), body_one_frame(b""));
+            let calls = backend_calls(&log);
+            let seen_bucket: Option<String> = calls.first().and_then(|c| c.input.downcast_ref::<s3s::dto::ListObjectsInput>().map(|i| i.bucket.clone()));
+            let ran: Vec<&str> = calls.iter().map(|c| c.op).collect();
+            a.nontrivial(fnv(id().as_bytes()));
+            a.outcome(&format!("bucket-level: {} / {}", if core.is_some() { "breaks-core-rules" } else if complete { "valid-under-complete-rules" } else { "in-between(not judged)" }, if ran.is_empty() { "refused" } else { "accepted" }));
+            if let Some(rule) = core {
+                if !ran.is_empty() {
+                    a.fail(&format!("C12/bucket-name/core-rule-not-enforced/{rule}/{style}/bucket-level"), name.len() as u64 * 10, id(), format!("name {name:?} breaks the core rule '{rule}' but the bucket-level request ran {ran:?} on {seen_bucket:?}"), json!({"name": name}));
+                }
+            } else if complete {
+                match &seen_bucket {
+                    Some(b) if b == name => {}
+                    Some(other) => a.fail(&format!("C12/bucket-name/resolved-to-other/{style}/bucket-level"), name.len() as u64, id(), format!("{name:?} resolved to {other:?}"), json!({})),
+                    None => a.fail(&format!("C12/bucket-name/valid-name-refused/{style}/bucket-level"), name.len() as u64, id(), format!("name {name:?} is valid under the complete naming rules but the bucket-level request was refused: {} (ran {ran:?})", out.verdict()), json!({"name": name})),
+                }
+            }
+        }
         for style in ["path", "virtual-hosted"] {
             let id = || format!("bucket-name/{style}/{name:?}");
             if !a.selected(&id) {
@@ -333,7 +370,7 @@ pub fn run(ctx: &Ctx) -> (Acc, Report) {
     let n = ctx.tier.pick(7, 8);
     let rep = Report {
         level: "exploration",
-        rule: format!("bucket names: all strings of length 0..{n} over {{a,A,1,.,-,_}} plus boundary lengths, IP shapes and reserved prefixes/suffixes, each path-style and virtual-hosted-style, judged by a sandwich (breaks a core rule => refused; valid under the complete published rules => accepted and resolved to itself; in between not judged). Keys: 63 keys (slashes, dots, blanks, + % ? # non-ASCII, literal escapes, 1023/1024/1025 bytes; keys made only of escaped characters - blank % # ? + and 2-, 3-, 4-byte characters - at the limit, over it, and at a third of it) x host parser {{none, single, multi(1..4)}} x hosts {{each base domain, bucket.domain, three hosts per domain that end with its text without belonging to it, IPv4, IPv4:port, [v6]:port, [v6]}}: backend's (bucket,key) must equal the client's in both styles. Constructors: all ordered selections of <=3 of 11 domains. Distinct by id."),
+        rule: format!("bucket names: all strings of length 0..{n} over {{a,A,1,.,-,_}} plus boundary lengths, IP shapes and reserved prefixes/suffixes, each path-style and virtual-hosted-style, on an object-level and on a bucket-level request (GET /name, GET /name/, GET / under the bucket's host), judged by a sandwich (breaks a core rule => refused; valid under the complete published rules => accepted and resolved to itself; in between not judged). Keys: 63 keys (slashes, dots, blanks, + % ? # non-ASCII, literal escapes, 1023/1024/1025 bytes; keys made only of escaped characters - blank % # ? + and 2-, 3-, 4-byte characters - at the limit, over it, and at a third of it) x host parser {{none, single, multi(1..4)}} x hosts {{each base domain, bucket.domain, three hosts per domain that end with its text without belonging to it, IPv4, IPv4:port, [v6]:port, [v6]}}: backend's (bucket,key) must equal the client's in both styles. Constructors: all ordered selections of <=3 of 11 domains. Distinct by id."),
         exhaustive: true,
         extra: json!({}),
         assumptions: vec!["a Host that belongs (label-wise) to no configured base domain may be refused or taken as a whole (bucket = host, the repository's choice); it must never be split against a base domain whose text it merely ends with".into(), "keys are percent-encoded once by the reference encoder (UriEncode, slash kept)".into()],
